@@ -96,93 +96,6 @@ def plan(thorough, rng):
     return uniq(wide), uniq(deep)
 
 
-def assess(chk, adapter, cases, settings, obs, rerun, base):
-    """per case and mode: which settings conform to TLC's expectation.  Returns (runs, classes)"""
-    nrun, classes = 0, set()
-
-    def split(i, c, mode):
-        ss = [s for s in settings if s.mode == mode and i in obs[s.name]]
-        div, conf = [], []
-        for s in ss:
-            o = obs[s.name][i]
-            d = adapter.judge(c, mode, o)
-            if d is not None and d[0] == "setup":
-                continue
-            (div if d else conf).append((s, o, d))
-        return ss, div, conf
-
-    def reportable(div, conf):
-        return div and (conf or not all(adapter.same(div[0][1], o) for _, o, _ in div[1:]))
-    # 1. cases that would be reported run again, each in a process of its own, before they are blamed
-    suspects = []
-    for i, c in enumerate(cases):
-        for mode in ec.MODES:
-            ss, div, conf = split(i, c, mode)
-            if reportable(div, conf):
-                suspects += [(i, mode, s) for s, _, _ in div]
-    suspects = suspects[:600]
-    if suspects:
-        for (i, mode, s), o2 in zip(suspects, rerun([(cases[i], s) for i, mode, s in suspects])):
-            o = obs[s.name][i]
-            if adapter.judge(cases[i], mode, o2) is None:
-                chk.violation("interference/%s/%s" % (adapter.name, cases[i].get("fam", "")),
-                              "%s agrees with the specification when run alone but not after other cases in the same process under %s"
-                              % (adapter.key(cases[i]), s.name),
-                              {"adapter": adapter.name, "case": cases[i], "mode": mode, "setting": s.name, "observed": o, "file": o.get("_file")})
-            obs[s.name][i] = o2
-    # 2. classification
-    for i, c in enumerate(cases):
-        for mode in ec.MODES:
-            ss, div, conf = split(i, c, mode)
-            if not ss:
-                continue
-            nrun += len(ss)
-            classes.add((adapter.key(c), mode))
-            if not div:
-                continue
-            first = div[0]
-            if conf:
-                who = ec.attribute(ss, [s for s, _, _ in div])
-                chk.violation("%s/%s/%s/%s" % (adapter.key(c), mode, who, first[2][0]),
-                              "under %s (--types %s) %s; under %s the program behaves as the reference semantics says"
-                              % (", ".join(s.name for s, _, _ in div[:4]), mode, first[2][1], conf[0][0].name),
-                              {"adapter": adapter.name, "case": c, "mode": mode, "diverging": [s.name for s, _, _ in div],
-                               "conforming": [s.name for s, _, _ in conf], "argv": first[0].argv("ego", "prog.ego"),
-                               "observed": {k: v for k, v in first[1].items() if k != "_file"}, "expected": adapter.expected(c, mode),
-                               "source": adapter.text([c])})
-            elif all(adapter.same(first[1], o) for _, o, _ in div[1:]):
-                base[(adapter.key(c), mode, first[2][0])] = first[2][1]       # the same everywhere: not a C02 matter
-            else:
-                groups = {}
-                for s, o, d in div:
-                    groups.setdefault(json.dumps([o.get(k) for k in ("out", "status", "ec", "pv", "P", "R")], sort_keys=True), []).append(s)
-                small = min(groups.values(), key=len)
-                chk.violation("%s/%s/%s/unstable" % (adapter.key(c), mode, ec.attribute(ss, small)),
-                              "the program differs from the reference under every setting, and not in the same way: %s vs %s (%s)"
-                              % (", ".join(s.name for s in small[:3]), ", ".join(s.name for s, _, _ in div if s not in small)[:80], first[2][1]),
-                              {"adapter": adapter.name, "case": c, "mode": mode, "diverging": [s.name for s in small],
-                               "conforming": [s.name for s, _, _ in div if s not in small][:1],
-                               "groups": {k: [s.name for s in v] for k, v in groups.items()}, "source": adapter.text([c])})
-    return nrun, classes
-
-
-def message_check(chk, adapter, cases, settings, obs):
-    """the error message of a conforming case must be the same under every setting (cases without any divergence)"""
-    for i, c in enumerate(cases):
-        for mode in ec.MODES:
-            msgs = {}
-            for s in settings:
-                o = obs[s.name].get(i) if s.mode == mode else None
-                if o and o.get("status") == "error" and adapter.msg(o):
-                    msgs.setdefault(adapter.msg(o), []).append(s)
-            if len(msgs) > 1:
-                small = min(msgs.values(), key=len)
-                ss = [s for s in settings if s.mode == mode]
-                chk.violation("%s/%s/%s/message" % (adapter.key(c), mode, ec.attribute(ss, small)),
-                              "the error message depends on the settings: %s" % json.dumps({k: [s.name for s in v][:3] for k, v in msgs.items()}),
-                              {"case": c, "mode": mode, "messages": {k: [s.name for s in v] for k, v in msgs.items()}})
-
-
 def replay(path):
     rp = json.load(open(path))["replay"]
     case, mode = rp["case"], rp["mode"]
@@ -267,8 +180,8 @@ def run():
                 def rerun(pairs, adapter=adapter):
                     stats["processes"] = stats.get("processes", 0) + len(pairs)
                     return ec.rerun_alone(ego, env, sd, adapter, pairs)
-                n, cl = assess(chk, adapter, cs, settings, obs, rerun, base)
-                message_check(chk, adapter, cs, settings, obs)
+                n, cl = ec.assess_matrix(chk, adapter, cs, settings, obs, rerun, base)
+                ec.message_check(chk, adapter, cs, settings, obs)
                 total += n
                 classes |= cl
                 if gi == 0 and adapter.name == "core":
